@@ -476,6 +476,20 @@ func (e *Engine) replayObligation(prop string, o *Obligation, why string) (strin
 			payload["replay_confirmed"] = ok
 			confirmed = ok
 		}
+	} else if !o.Cover && o.clause != nil && o.clause.Label == "signer-failure-is-typed" && strings.HasSuffix(o.contract.Key, ".Package") {
+		if out, ok, test := e.replaySignerTyped(o); test != "" {
+			payload["replay_test"] = test
+			payload["replay_output"] = truncate(out, 8000)
+			payload["replay_confirmed"] = ok
+			confirmed = ok
+		}
+	} else if !o.Cover && o.clause != nil && o.clause.Label == "signer-error-is-wrapped" {
+		if out, ok, test := e.replaySignerError(o); test != "" {
+			payload["replay_test"] = test
+			payload["replay_output"] = truncate(out, 8000)
+			payload["replay_confirmed"] = ok
+			confirmed = ok
+		}
 	} else if !o.Cover && o.Kind == "store" && (strings.Contains(o.ID, "store:S3") || strings.Contains(o.ID, "store:S4")) {
 		if out, ok, test := e.replayPlan(o); test != "" {
 			payload["replay_test"] = test
